@@ -1,12 +1,18 @@
 (* Props/C10.v — property C10: out-of-range operands are rejected, never silently truncated.
    Only statements, [exact] of a lemma from Proofs/, and Print Assumptions.
    Gen.bitfun: wrap_negative / inrange regenerated from /repo/ppci/utils/bitfun.py (tie T);
-   Model.TokenField: hand model of ppci/arch/token.py (tie H, cross-checked on every run);
+   Gen.token_fields (GT): Token.__getitem__/__setitem__, the bit_range/bit_concat closures and BitView.__setitem__,
+   regenerated on every run from ppci/arch/token.py and ppci/utils/bitfun.py by the flattening pre-pass + py2coq (tie T);
+   Model.TokenField: the readable model on which the field theorems are stated; the c10_tie_* theorems prove it EQUAL
+   to the regenerated definitions, so an edit of token.py changes GT and breaks those proofs;
    Gen.Tab_fields: every token field of every architecture, exported from the current source (tie I).
    The full-strength property is REFUTED for the current code (known finding, DESIGN §6 item 23):
    the `_refuted` theorems carry the witnesses, the other theorems state exactly what the code accepts and
    the positive parts that do hold. *)
 From PV Require Import Lib.Py Spec.FieldSpec Gen.bitfun Model.TokenField Gen.Tab_fields Proofs.C10_fields.
+From PV Require Gen.token_fields.
+From PV Require Import Proofs.C10_tie Proofs.C10_concat Proofs.C10_bitview.
+Module GT := PV.Gen.token_fields.
 From Coq Require Import String.
 Open Scope Z_scope.
 
@@ -142,6 +148,74 @@ Theorem c10_table_concat_truncates_refuted : exists r, In r fields_table /\
 Proof. exact (exists_row _ table_concat_truncates). Qed.
 Print Assumptions c10_table_concat_truncates_refuted.
 
+(* ---- tie T: the regenerated definitions are equal to the model used above *)
+Theorem c10_tie_tok_getitem : forall bv start stop, GT.tok_getitem bv start stop = tok_getitem bv start stop.
+Proof. exact tie_getitem. Qed.
+Print Assumptions c10_tie_tok_getitem.
+
+Theorem c10_tie_tok_setitem : forall size bv start stop v, 0 <= size ->
+  GT.tok_setitem size bv start stop v = tok_setitem size bv start stop v.
+Proof. exact tie_setitem. Qed.
+Print Assumptions c10_tie_tok_setitem.
+
+(* bit_range closures *)
+Theorem c10_tie_range : forall size bv b e s v, 0 <= size ->
+  GT.range_set size bv b e v = field_set size bv (FRange (Part b e s)) v /\
+  GT.range_get bv b e = field_get bv (FRange (Part b e s)).
+Proof. intros. split; [now apply tie_range_set|apply tie_range_get]. Qed.
+Print Assumptions c10_tie_range.
+
+(* bit_concat closures (partials given as the parallel lists of their b and e) *)
+Theorem c10_tie_concat : forall size bv ps v, 0 <= size -> Forall pwf ps ->
+  GT.concat_set size bv (map pb ps) (map pe ps) v = field_set size bv (FConcat ps) v /\
+  GT.concat_get bv (map pb ps) (map pe ps) = field_get bv (FConcat ps).
+Proof. intros. split; [now apply tie_concat_set|now apply tie_concat_get]. Qed.
+Print Assumptions c10_tie_concat.
+
+(* headline statement directly on the regenerated Token.__setitem__ *)
+Theorem c10_gen_setitem_accepts : forall size bv b e v, 0 <= size -> 0 <= b -> 0 < e - b ->
+  ((exists t, GT.tok_setitem size bv b e v = Ok t) <-> - 2 ^ (e - b) <= v < 2 ^ (e - b)).
+Proof. intros size bv b e v Hs Hb Hw. rewrite tie_setitem by assumption. exact (setitem_accepts size bv b e Hb Hw v). Qed.
+Print Assumptions c10_gen_setitem_accepts.
+
+(* ---- bit_concat fields, unbounded: any list of parts lying inside the token and pairwise disjoint, any token
+   state, any width: an in-range value is read back exactly and no bit outside the parts changes *)
+Theorem c10_concat_exact_in_range : forall size bv ps v,
+  field_wfb size (FConcat ps) = true -> ps <> [] ->
+  fits (fsigned (FConcat ps)) (fwidth (FConcat ps)) v ->
+  exists bv' t, field_set size bv (FConcat ps) v = Ok bv' /\ field_get bv' (FConcat ps) = Ok t /\
+    decode (fsigned (FConcat ps)) (fwidth (FConcat ps)) t = v /\
+    (forall i, 0 <= i < size -> (forall p, In p ps -> ~ in_part p i) -> Z.testbit bv' i = Z.testbit bv i).
+Proof. exact concat_field_exact. Qed.
+Print Assumptions c10_concat_exact_in_range.
+
+(* ... and therefore for every bit_concat field of the exported table (supersedes the _bounded theorem above) *)
+Theorem c10_table_concat_exact : forall r bv v ps,
+  In r fields_table -> row_field r = FConcat ps -> ps <> [] ->
+  fits (fsigned (FConcat ps)) (fwidth (FConcat ps)) v ->
+  exists bv' t, field_set (row_size r) bv (FConcat ps) v = Ok bv' /\ field_get bv' (FConcat ps) = Ok t /\
+    decode (fsigned (FConcat ps)) (fwidth (FConcat ps)) t = v /\
+    (forall i, 0 <= i < row_size r -> (forall p, In p ps -> ~ in_part p i) -> Z.testbit bv' i = Z.testbit bv i).
+Proof. exact table_concat_exact_all. Qed.
+Print Assumptions c10_table_concat_exact.
+
+(* ---- BitView.__setitem__ (regenerated): bits [start, stop) of the little-endian word data[begin : begin+length]
+   (bit i of the word = bit (i mod 8) of byte begin + i / 8) become the bits of value (two's complement when value is
+   negative), every other bit of every byte is unchanged, the length is unchanged; for every value < 2^(stop-start) *)
+Theorem c10_bitview_writes_exactly : forall data begin length_ start stop value,
+  0 <= begin -> 0 <= length_ -> begin + length_ <= len data -> bytes_ok data ->
+  0 <= start -> start < stop -> stop <= length_ * 8 -> value < 2 ^ (stop - start) ->
+  exists data', GT.bitview_setitem data begin length_ start stop value = Ok data' /\
+    List.length data' = List.length data /\ bytes_ok data' /\
+    forall k t, (k < List.length data)%nat -> 0 <= t < 8 ->
+      Z.testbit (nth k data' 0) t =
+      if (begin <=? Z.of_nat k) && (Z.of_nat k <? begin + length_) &&
+         (start <=? 8 * (Z.of_nat k - begin) + t) && (8 * (Z.of_nat k - begin) + t <? stop)
+      then Z.testbit value (8 * (Z.of_nat k - begin) + t - start)
+      else Z.testbit (nth k data 0) t.
+Proof. exact bitview_writes_exactly. Qed.
+Print Assumptions c10_bitview_writes_exactly.
+
 (* non-vacuity: hypotheses are inhabited and the model computes the expected numbers *)
 Example c10_nonvacuous :
   wrap_negative (-5) 8 = Ok 251 /\ wrap_negative 255 8 = Ok 255 /\ wrap_negative 256 8 = Diag 1 /\
@@ -152,5 +226,9 @@ Example c10_nonvacuous :
   field_set 32 0 (FRange (Part 20 32 false)) (-4097) = Internal AssertionError /\
   roundtrip 8 (FRange (Part 0 8 true)) (-128) = Some (-128) /\
   roundtrip 32 (FConcat [Part 31 32 false; Part 7 8 false; Part 25 31 false; Part 8 12 false]) 0xABC = Some 0xABC /\
-  (100 <? Z.of_nat (List.length fields_table)) = true.
+  (100 <? Z.of_nat (List.length fields_table)) = true /\
+  GT.tok_setitem 32 0 20 32 (-1) = Ok 4293918720 /\ GT.concat_set 32 0 [25; 7] [32; 12] 0xABC = Ok 2852130304 /\
+  GT.concat_get 2852130304 [25; 7] [32; 12] = Ok 0xABC /\
+  GT.bitview_setitem [0xFF; 0xFF; 0xFF; 0xFF] 0 4 4 12 0x5A = Ok [0xAF; 0xF5; 0xFF; 0xFF] /\
+  GT.bitview_setitem [0; 0; 0; 0] 0 4 4 12 256 = Internal AssertionError.
 Proof. vm_compute. repeat split. Qed.
